@@ -8,7 +8,7 @@ def run_generic(prop, tier, seed, make_cases, oracle, project, rule, theorem="",
     hc = hcommon.HandlerCheck(prop, tier, seed)
     hc.gate(extra_gate)
     hc.run_corpus(lambda kind: oracle)
-    for case in make_cases(tier, hc.rng):
+    for case in hcommon.share(make_cases(tier, hc.rng)):
         case.run()
         for kind, ops, obs in case.sides:
             hc.add_trace(kind, ops, obs, label=label, oracle=oracle, describe=getattr(case, "describe", None))
